@@ -28,29 +28,27 @@ def main():
     tr = cxx2c.Translator(docs, cfg)
     roots = []
     try:
+        def find_record(k2, n2, q2):
+            ds = []
+            def tr_match(n):
+                targs = [a.get('type', {}).get('qualType', '') for a in n.get('inner', []) if a.get('kind') == 'TemplateArgument']
+                want = q2[q2.index('<') + 1:q2.rindex('>')] if '<' in q2 else ''
+                got = ', '.join(cxx2c.strip_ns(a) for a in targs)
+                return (not want) or (not targs) or want == got
+            def walk(n):
+                if isinstance(n, dict):
+                    if n.get('kind') == k2 and n.get('name') == n2 and n.get('completeDefinition') and tr_match(n): ds.append(n)
+                    for c in n.get('inner', []): walk(c)
+            for d in docs: walk(d)
+            if not ds: raise cxx2c.Unsupported(f'root record {q2} not found in AST dump')
+            return ds[-1]
         kind, name = cfg['root']
-        rootdecl = [d for d in docs if d.get('kind') == kind and d.get('name') == name]
-        if not rootdecl: raise cxx2c.Unsupported(f'root record {name} not found in AST dump')
-        rootdecl = rootdecl[-1]
-        tr.register_record(rootdecl, cfg['root_q'])
+        tr.register_record(find_record(kind, name, cfg['root_q']), cfg['root_q'])
         for q in cfg.get('opaque_records', []):
             tr.cnames.setdefault(q, q)
         for extra in cfg.get('extra_roots', []):
             k2, n2, q2 = extra
-            ds = []
-            def walk(n):
-                if isinstance(n, dict):
-                    if n.get('kind') == k2 and n.get('name') == n2 and n.get('completeDefinition') and tr_match(n, q2): ds.append(n)
-                    for c in n.get('inner', []): walk(c)
-            def tr_match(n, q2):
-                # match template arguments against the requested specialisation name
-                targs = [a.get('type', {}).get('qualType', '') for a in n.get('inner', []) if a.get('kind') == 'TemplateArgument']
-                want = q2[q2.index('<') + 1:q2.rindex('>')] if '<' in q2 else ''
-                got = ', '.join(cxx2c.strip_ns(a) for a in targs)
-                return (not want) or want == got
-            for d in docs: walk(d)
-            if not ds: raise cxx2c.Unsupported(f'root record {q2} not found in AST dump')
-            tr.register_record(ds[-1], q2)
+            tr.register_record(find_record(k2, n2, q2), q2)
         for q in list(tr.records):
             try:
                 tr.emit_struct(q)
@@ -65,7 +63,7 @@ def main():
                     if (want is None or c.get('name') in want) and c.get('name') not in cfg.get('skip_functions', []): roots.append(c)
                 if k == 'FunctionTemplateDecl':
                     for x in c.get('inner', []):
-                        if x.get('kind') == 'CXXMethodDecl' and tr.has_body(x):
+                        if x.get('kind') == 'CXXMethodDecl' and tr.has_body(x) and any(a.get('kind') == 'TemplateArgument' for a in x.get('inner', [])):
                             targs = [a.get('type', {}).get('qualType', '') for a in x.get('inner', []) if a.get('kind') == 'TemplateArgument']
                             if any('(lambda at ' + repo in a for a in targs):
                                 continue   # instantiated on a library-internal lambda: emitted when its caller is
